@@ -45,7 +45,7 @@ CFG = {
 @st.composite
 def _scn(draw):
     scn = draw(st.one_of(hist.scenarios(CFG), hist.scenarios(dict(CFG, final=["create_sf"]))))
-    extra = draw(st.sampled_from([None, None, None, "prefix", "prefix", "big"]))
+    extra = draw(st.sampled_from([None, None, None, "prefix", "prefix", "big", "twins"]))
     if extra == "prefix":
         # a nested history whose folder name is a prefix of a sibling folder / file that has no history of its own
         base = draw(st.sampled_from(["Clips", "s", "A", "Reel1"]))
@@ -54,6 +54,14 @@ def _scn(draw):
             scn["tree"][base] = {"in.mov": "inside " + base}
             scn["tree"][base + sib] = {"next.mov": "beside"} if draw(st.booleans()) else "a file beside"
             scn["steps"] = [{"op": "create", "root": base, "formats": draw(gen.formats(2)), "flags": []}] + scn["steps"]
+    elif extra == "twins":
+        # two nested histories holding a file with the same history-relative path, both named in one -sf run
+        if not ({"A001", "B001"} & hist.top_names_used(scn)):
+            scn["tree"]["A001"] = {"Clips": {"clip001.mov": "card A"}}
+            scn["tree"]["B001"] = {"Clips": {"clip001.mov": "card B"}}
+            pre = [{"op": "create", "root": r, "formats": ["md5"], "flags": []} for r in draw(st.permutations(["A001", "B001"]))]
+            sel = draw(st.sampled_from([["A001/Clips/clip001.mov", "B001/Clips/clip001.mov"], ["B001", "A001"], ["A001/Clips", "B001/Clips/clip001.mov"]]))
+            scn["steps"] = pre + scn["steps"] + [{"op": "create_sf", "root": "", "formats": draw(gen.formats(2)), "flags": [], "sf": sel}]
     elif extra == "big":
         # one file beyond the 1 MiB read chunk, size not a multiple of it
         if "big.bin" not in hist.top_names_used(scn):
